@@ -10,11 +10,28 @@
 #include "awkward/virtual/ArrayCache.h"
 #include "awkward/virtual/ArrayGenerator.h"
 #include "awkward/partition/IrregularlyPartitionedArray.h"
+#include "awkward/array/NumpyArray.h"
+#include "awkward/array/EmptyArray.h"
+#include "awkward/array/RegularArray.h"
+#include "awkward/array/ListArray.h"
+#include "awkward/array/ListOffsetArray.h"
+#include "awkward/array/IndexedArray.h"
+#include "awkward/array/ByteMaskedArray.h"
+#include "awkward/array/BitMaskedArray.h"
+#include "awkward/array/UnmaskedArray.h"
+#include "awkward/array/UnionArray.h"
+#include "awkward/array/RecordArray.h"
+#include "awkward/array/Record.h"
+#include "awkward/Slice.h"
 
 namespace ak = awkward;
 using namespace awsim;
 
 namespace {
+  // one ordered log of every seam call of the run (cache and generators interleaved), for the trace and for the
+  // "no set after a failed generation" check
+  std::stringstream seam_log_;
+
   // ---------------------------------------------------------------------------------------------- cache
   // The simulator scripts every answer: get_script[k] decides the k-th get() (0 = answer from the store,
   // 1 = the entry was evicted just before this get), set_script[k] the k-th set() (0 = store, 1 = lose it).
@@ -25,23 +42,23 @@ namespace {
     ak::ContentPtr get(const std::string& key) const override {
       long k = ngets_++;
       int act = k < (long)get_script_.size() ? get_script_[(size_t)k] : 0;
-      if (broken_) { log_ << "get " << key << " broken\n"; return ak::ContentPtr(nullptr); }
+      if (broken_) { seam_log_ << "cache get " << key << " broken\n"; return ak::ContentPtr(nullptr); }
       if (act == 1) {
         bool had = store_.erase(key) > 0;
-        log_ << "get " << key << (had ? " evicted\n" : " miss\n");
+        seam_log_ << "cache get " << key << (had ? " evicted\n" : " miss\n");
         return ak::ContentPtr(nullptr);
       }
       auto it = store_.find(key);
-      if (it == store_.end()) { log_ << "get " << key << " miss\n"; return ak::ContentPtr(nullptr); }
-      log_ << "get " << key << " hit\n";
+      if (it == store_.end()) { seam_log_ << "cache get " << key << " miss\n"; return ak::ContentPtr(nullptr); }
+      seam_log_ << "cache get " << key << " hit\n";
       return it->second;
     }
     void set(const std::string& key, const ak::ContentPtr& value) override {
       long k = nsets_++;
       int act = k < (long)set_script_.size() ? set_script_[(size_t)k] : 0;
-      if (broken_  ||  act == 1) { log_ << "set " << key << " lost\n"; return; }
+      if (broken_  ||  act == 1) { seam_log_ << "cache set " << key << " lost\n"; return; }
       store_[key] = value;
-      log_ << "set " << key << " stored\n";
+      seam_log_ << "cache set " << key << " stored\n";
     }
     bool is_broken() const override { return broken_; }
     const std::string tostring_part(const std::string& indent, const std::string& pre, const std::string& post) const override {
@@ -53,7 +70,6 @@ namespace {
     bool broken_;
     mutable long ngets_;
     long nsets_;
-    mutable std::stringstream log_;
   };
 
   // ---------------------------------------------------------------------------------------------- generator
@@ -63,7 +79,7 @@ namespace {
     ak::ContentPtr longer;    // longer than the truth (may be null)
     std::vector<int> script;  // per generate() call: 0 ok, 1 throw, 2 short, 3 wrong form, 4 long
     long calls;
-    std::stringstream log;
+    std::string key;
     GenState(): calls(0) { }
   };
 
@@ -76,24 +92,24 @@ namespace {
       int act = k < (long)st_->script.size() ? st_->script[(size_t)k] : 0;
       switch (act) {
         case 1:
-          st_->log << "generate throw\n";
+          seam_log_ << "gen " << st_->key << " throw\n";
           throw std::runtime_error("simulated generator failure");
         case 2:
           if (st_->truth->length() > 0) {
-            st_->log << "generate short\n";
+            seam_log_ << "gen " << st_->key << " short\n";
             return st_->truth->getitem_range_nowrap(0, st_->truth->length() - 1);
           }
           break;
         case 3:
-          if (st_->wrong.get() != nullptr) { st_->log << "generate wrong_form\n"; return st_->wrong; }
+          if (st_->wrong.get() != nullptr) { seam_log_ << "gen " << st_->key << " wrong_form\n"; return st_->wrong; }
           break;
         case 4:
-          if (st_->longer.get() != nullptr) { st_->log << "generate long\n"; return st_->longer; }
+          if (st_->longer.get() != nullptr) { seam_log_ << "gen " << st_->key << " long\n"; return st_->longer; }
           break;
         default:
           break;
       }
-      st_->log << "generate ok\n";
+      seam_log_ << "gen " << st_->key << " ok\n";
       return st_->truth;
     }
     void caches(std::vector<ak::ArrayCachePtr>& out) const override { }
@@ -120,6 +136,110 @@ namespace {
     std::shared_ptr<GenState> st;
     ak::ArrayGeneratorPtr gen;
   };
+
+  // ---------------------------------------------------------------------------------------------- materialised twin
+  // "The materialised array" of property C18, built by the simulator without touching a seam: the same tree of nodes
+  // with every VirtualArray replaced by what its generator stands for - the truth of a SimGenerator, or the slice of
+  // the (materialised) array that a SliceGenerator defers. No cache is asked and no generator is called.
+  ak::ContentPtr materialise(const ak::ContentPtr& c);
+
+  template <typename T>
+  bool mat_list(const ak::ContentPtr& c, ak::ContentPtr& out) {
+    if (const ak::ListArrayOf<T>* a = dynamic_cast<const ak::ListArrayOf<T>*>(c.get())) {
+      out = std::make_shared<ak::ListArrayOf<T>>(a->identities(), a->parameters(), a->starts(), a->stops(),
+                                                 materialise(a->content()));
+      return true;
+    }
+    if (const ak::ListOffsetArrayOf<T>* a = dynamic_cast<const ak::ListOffsetArrayOf<T>*>(c.get())) {
+      out = std::make_shared<ak::ListOffsetArrayOf<T>>(a->identities(), a->parameters(), a->offsets(),
+                                                       materialise(a->content()));
+      return true;
+    }
+    return false;
+  }
+
+  template <typename T, bool OPT>
+  bool mat_indexed(const ak::ContentPtr& c, ak::ContentPtr& out) {
+    if (const ak::IndexedArrayOf<T, OPT>* a = dynamic_cast<const ak::IndexedArrayOf<T, OPT>*>(c.get())) {
+      out = std::make_shared<ak::IndexedArrayOf<T, OPT>>(a->identities(), a->parameters(), a->index(),
+                                                         materialise(a->content()));
+      return true;
+    }
+    return false;
+  }
+
+  template <typename T, typename I>
+  bool mat_union(const ak::ContentPtr& c, ak::ContentPtr& out) {
+    if (const ak::UnionArrayOf<T, I>* a = dynamic_cast<const ak::UnionArrayOf<T, I>*>(c.get())) {
+      ak::ContentPtrVec contents;
+      for (auto x : a->contents()) contents.push_back(materialise(x));
+      out = std::make_shared<ak::UnionArrayOf<T, I>>(a->identities(), a->parameters(), a->tags(), a->index(), contents);
+      return true;
+    }
+    return false;
+  }
+
+  ak::ContentPtr materialise(const ak::ContentPtr& c) {
+    ak::ContentPtr out;
+    if (const ak::VirtualArray* v = dynamic_cast<const ak::VirtualArray*>(c.get())) {
+      ak::ArrayGeneratorPtr g = v->generator();
+      ak::ContentPtr inner;
+      if (const SimGenerator* sg = dynamic_cast<const SimGenerator*>(g.get())) {
+        inner = materialise(sg->st_->truth);
+      }
+      else if (const ak::SliceGenerator* sl = dynamic_cast<const ak::SliceGenerator*>(g.get())) {
+        // exactly what SliceGenerator::generate() computes, on the materialised content
+        ak::ContentPtr base = materialise(sl->content());
+        ak::Slice slice = sl->slice();
+        ak::SliceRange* range = slice.length() == 1 ? dynamic_cast<ak::SliceRange*>(slice.head().get()) : nullptr;
+        if (range != nullptr  &&  range->step() == 1) {
+          inner = base->getitem_range(range->start(), range->stop());
+        }
+        else {
+          inner = base->getitem(slice);
+        }
+        inner = materialise(inner);
+      }
+      else {
+        throw HarnessError("materialise: VirtualArray with an unknown generator class");
+      }
+      return inner;
+    }
+    if (dynamic_cast<const ak::NumpyArray*>(c.get())  ||  dynamic_cast<const ak::EmptyArray*>(c.get())) {
+      return c;
+    }
+    if (const ak::RegularArray* a = dynamic_cast<const ak::RegularArray*>(c.get())) {
+      return std::make_shared<ak::RegularArray>(a->identities(), a->parameters(), materialise(a->content()), a->size(),
+                                                a->length());
+    }
+    if (mat_list<int32_t>(c, out)  ||  mat_list<uint32_t>(c, out)  ||  mat_list<int64_t>(c, out)) return out;
+    if (mat_indexed<int32_t, false>(c, out)  ||  mat_indexed<uint32_t, false>(c, out)  ||
+        mat_indexed<int64_t, false>(c, out)  ||  mat_indexed<int32_t, true>(c, out)  ||
+        mat_indexed<int64_t, true>(c, out)) return out;
+    if (const ak::ByteMaskedArray* a = dynamic_cast<const ak::ByteMaskedArray*>(c.get())) {
+      return std::make_shared<ak::ByteMaskedArray>(a->identities(), a->parameters(), a->mask(), materialise(a->content()),
+                                                   a->valid_when());
+    }
+    if (const ak::BitMaskedArray* a = dynamic_cast<const ak::BitMaskedArray*>(c.get())) {
+      return std::make_shared<ak::BitMaskedArray>(a->identities(), a->parameters(), a->mask(), materialise(a->content()),
+                                                  a->valid_when(), a->length(), a->lsb_order());
+    }
+    if (const ak::UnmaskedArray* a = dynamic_cast<const ak::UnmaskedArray*>(c.get())) {
+      return std::make_shared<ak::UnmaskedArray>(a->identities(), a->parameters(), materialise(a->content()));
+    }
+    if (mat_union<int8_t, int32_t>(c, out)  ||  mat_union<int8_t, uint32_t>(c, out)  ||
+        mat_union<int8_t, int64_t>(c, out)) return out;
+    if (const ak::RecordArray* a = dynamic_cast<const ak::RecordArray*>(c.get())) {
+      ak::ContentPtrVec contents;
+      for (auto x : a->contents()) contents.push_back(materialise(x));
+      return std::make_shared<ak::RecordArray>(a->identities(), a->parameters(), contents, a->recordlookup(), a->length());
+    }
+    if (const ak::Record* r = dynamic_cast<const ak::Record*>(c.get())) {
+      ak::ContentPtr arr = materialise(r->array()->shallow_copy());
+      return std::make_shared<ak::Record>(std::dynamic_pointer_cast<const ak::RecordArray>(arr), r->at());
+    }
+    throw HarnessError("materialise: unknown node class " + c->classname());
+  }
 }
 
 extern "C" {
@@ -153,28 +273,34 @@ extern "C" {
     long n = 0;
     if (key == nullptr  ||  key[0] == 0) { n = (long)c->store_.size(); c->store_.clear(); }
     else n = (long)c->store_.erase(std::string(key));
-    c->log_ << "evict " << (key ? key : "") << " " << n << "\n";
+    seam_log_ << "cache evict " << (key ? key : "") << " " << n << "\n";
     return n;
     AWS_CATCH(-1)
   }
 
-  // the call log (and the set of stored keys as a last line "keys a,b,"); clears the log
-  long aws_cache_log(long h, char* out, long cap) {
+  // the ordered seam log of the run since the last call (cleared on read)
+  long aws_seam_log(char* out, long cap) {
     AWS_TRY
-    auto c = get<SimCache>(h, K_CACHE);
-    std::string s = c->log_.str();
-    s += "keys ";
-    for (auto& kv : c->store_) { s += kv.first; s.push_back(','); }
-    s.push_back('\n');
+    std::string s = seam_log_.str();
     long need = copy_out(s, out, cap);
-    if (need < cap) { c->log_.str(""); c->log_.clear(); }
+    if (need < cap) { seam_log_.str(""); seam_log_.clear(); }
     return need;
     AWS_CATCH(-1)
   }
 
-  long aws_gen_new(long truth, int declare_form, int declare_length, long wrong, long longer) {
+  long aws_cache_keys(long h, char* out, long cap) {
+    AWS_TRY
+    auto c = get<SimCache>(h, K_CACHE);
+    std::string s;
+    for (auto& kv : c->store_) { s += kv.first; s.push_back(','); }
+    return copy_out(s, out, cap);
+    AWS_CATCH(-1)
+  }
+
+  long aws_gen_new(long truth, int declare_form, int declare_length, long wrong, long longer, const char* key) {
     AWS_TRY
     auto st = std::make_shared<GenState>();
+    st->key = key;
     st->truth = get<ak::Content>(truth, K_CONTENT);
     if (wrong != 0) st->wrong = get<ak::Content>(wrong, K_CONTENT);
     if (longer != 0) st->longer = get<ak::Content>(longer, K_CONTENT);
@@ -211,16 +337,6 @@ extern "C" {
     AWS_CATCH(0)
   }
 
-  long aws_gen_log(long h, char* out, long cap) {
-    AWS_TRY
-    auto st = get<GenHandle>(h, K_GEN)->st;
-    std::string s = st->log.str();
-    long need = copy_out(s, out, cap);
-    if (need < cap) { st->log.str(""); st->log.clear(); }
-    return need;
-    AWS_CATCH(-1)
-  }
-
   long aws_virtual(long gen, long cache, const char* key) {
     AWS_TRY
     auto gh = get<GenHandle>(gen, K_GEN);
@@ -229,6 +345,13 @@ extern "C" {
     ak::ContentPtr out = std::make_shared<ak::VirtualArray>(ak::Identities::none(), ak::util::Parameters(), gh->gen, c,
                                                             std::string(key));
     return put(K_CONTENT, out);
+    AWS_CATCH(0)
+  }
+
+  long aws_materialise(long h) {
+    AWS_TRY
+    ak::ContentPtr c = get<ak::Content>(h, K_CONTENT);
+    return put(K_CONTENT, materialise(c));
     AWS_CATCH(0)
   }
 
@@ -272,7 +395,11 @@ extern "C" {
       bool first = true;
       for (int64_t i = 0;  i < p->numpartitions();  i++) {
         std::string part;
+        if (p->partition(i)->length() == 0) continue;      // (an empty partition may have lost its list type)
         walk(p->partition(i).get(), part);      // "[a,b,c]"
+        if (part.empty()  ||  part[0] != '[') {
+          throw WalkError("walker: a partition is not an array: " + part.substr(0, 60));
+        }
         if (part.size() > 2) {
           if (!first) s.push_back(',');
           first = false;
